@@ -220,6 +220,9 @@ def build_job(r, ext):
         for k, (at, missing) in enumerate(r["rets"]):
             if at % ncmd == i and not missing:
                 parts.append(f"printf 'RET{k}\\000\\377 payload %s' {k} > ret{k}.dat")
+        if fail_at == i and c.get("sig"):
+            # this command fails by DYING from a signal (out-of-memory killer, segmentation fault): negative return code
+            parts.append(f"kill -{['KILL', 'SEGV', 'TERM'][c['sig'] - 1]} $$; sleep 5")
         parts.append(f"exit {c['code'] if fail_at == i else 0}")
         script = "; ".join(parts)
         if fail_at == i and c.get("noexe"):
@@ -371,13 +374,13 @@ def classify_exec(r):
     fa = r["fail_at"] if r["fail_at"] is not None and r["fail_at"] < ncmd else None
     miss = any(m or (fa is not None and at % ncmd > fa) for at, m in r["rets"])
     binf = any(k == "bin" for k, _ in r["files"])
-    lab = (["failure=program_cannot_be_started"] if fa is not None and r["cmds"][fa].get("noexe") else []) + [f"ncmd={ncmd}", f"fail_at={fa}", "real" if r["real"] else "fork", "env_override" if r["env"] else "env_inherited"] + (["missing_return_file"] if miss else []) + (["binary_file"] if binf else [])
+    lab = (["failure=program_cannot_be_started"] if fa is not None and r["cmds"][fa].get("noexe") else ["failure=killed_by_signal"] if fa is not None and r["cmds"][fa].get("sig") else []) + [f"ncmd={ncmd}", f"fail_at={fa}", "real" if r["real"] else "fork", "env_override" if r["env"] else "env_inherited"] + (["missing_return_file"] if miss else []) + (["binary_file"] if binf else [])
     return (ncmd >= 2 and fa is not None and fa > 0) or miss or binf, lab
 
 
 def strat_exec(tier):
     txt = st.text("abcXYZ 019_-:;,.é", max_size=12)
-    cmd = st.fixed_dictionaries({"named": st.booleans(), "out": txt, "err": txt, "code": st.integers(1, 120), "noexe": st.sampled_from([False, False, False, True])})
+    cmd = st.fixed_dictionaries({"named": st.booleans(), "out": txt, "err": txt, "code": st.integers(1, 120), "noexe": st.sampled_from([False, False, False, True]), "sig": st.sampled_from([0, 0, 0, 1, 2, 3])})
     return st.fixed_dictionaries({
         "jid": st.sampled_from(["job", "j-1", "mol_A"]), "cmds": st.lists(cmd, min_size=1, max_size=4),
         "fail_at": st.one_of(st.none(), st.integers(0, 3)),
